@@ -370,6 +370,9 @@ static int String_Format_To(var self, int pos, const char* fmt, va_list va) {
   int size = vsnprintf(NULL, 0, fmt, va_tmp);
   va_end(va_tmp);
   
+  /* A conversion the C library refuses: nothing is written */
+  if (size < 0) { return size; }
+  
 #if CELLO_ALLOC_CHECK == 1
   if (header(self)->alloc is (var)AllocStack
   or  header(self)->alloc is (var)AllocStatic) {
@@ -377,15 +380,32 @@ static int String_Format_To(var self, int pos, const char* fmt, va_list va) {
   }
 #endif
   
-  s->val = realloc(s->val, pos + size + 1);
+  /* The text is produced before the String is touched: an argument may be
+  ** this String's own characters, which growing it would move */
+  char* text = malloc(size + 1);
   
 #if CELLO_MEMORY_CHECK == 1
-  if (s->val is NULL) {
+  if (text is NULL) {
     throw(OutOfMemoryError, "Cannot allocate String, out of memory!");
   }
 #endif
   
-  return vsprintf(s->val + pos, fmt, va); 
+  vsprintf(text, fmt, va);
+  
+  char* val = realloc(s->val, pos + size + 1);
+  
+#if CELLO_MEMORY_CHECK == 1
+  if (val is NULL) {
+    free(text);
+    throw(OutOfMemoryError, "Cannot allocate String, out of memory!");
+  }
+#endif
+  
+  s->val = val;
+  memcpy(s->val + pos, text, size + 1);
+  free(text);
+  
+  return size;
   
 #endif
 
